@@ -3,6 +3,7 @@
 # (sources taken from the worktree) and report the stable_pass tests that no longer pass.
 PATCH=$1
 WT=/tmp/wt_verify
+[ -d $WT ] || git -C /repo worktree add -q --detach $WT HEAD || exit 9
 cd $WT || exit 9
 git checkout -q --detach $(git -C /repo rev-parse HEAD) && git checkout -- . || exit 9
 git apply "$PATCH" || { echo "patch does not apply"; exit 9; }
